@@ -401,7 +401,11 @@ def generate(prop, rng, tier):
         pool = gen.gen_degenerate_pool(rng, wp, nmax=nmax) if rng.random() < 0.7 else \
             gen.gen_pool(rng, wp, nmax=nmax, nspk=nspk)
     else:
-        pool = gen.gen_pool(rng, wp, nmax=nmax, nspk=nspk)
+        # scale: now and then one train is long (hundreds of spikes); costly, hence rare
+        pool = gen.gen_pool(rng, wp, nmax=nmax, nspk=nspk, long_p=0.03 if tier == 'thorough' else 0.012)
+        if len(pool[0]) > 200:
+            rng.shuffle(pool)
+            nops = min(nops, 8)
     specs = [{'s': s, 'e': list(e), 'c': rng.choice(['arr', 'arr', 'list', 'tuple', 'intlist']),
               'ce': rng.choice(['list', 'list', 'tuple', 'arr'])} for s in pool]
 
